@@ -102,6 +102,7 @@ def run_observed(left, right, pipeline: dict, machine=None, do_check=True, obser
                 scale = m.current_scale
                 pre = {
                     "disp_min": _snap(m.disp_min), "disp_max": _snap(m.disp_max),
+                    "right_disp_min": _snap(m.right_disp_min), "right_disp_max": _snap(m.right_disp_max),
                     "img_shape": (int(m.left_img.sizes["row"]), int(m.left_img.sizes["col"])),
                 }
                 _orig(cfg_, input_step)
